@@ -18,9 +18,9 @@ type nElem map[string]string
 type nDoc struct {
 	id    string
 	title string
-	emps  []nElem // name, role (an element may have neither: it then holds only its tags)
+	emps  []nElem    // name, role (an element may have neither: it then holds only its tags)
 	tags  [][]string // per employee: the tag objects inside it
-	offs  []nElem // city
+	offs  []nElem    // city
 }
 
 var c20Tags = []string{"red", "blue", "green"}
@@ -148,7 +148,10 @@ type nq struct {
 }
 
 func genNLeaf(r *Rng, only string) nq {
-	type lf struct{ arr, field string; vals []string }
+	type lf struct {
+		arr, field string
+		vals       []string
+	}
 	all := []lf{{"", "title", c20Titles}, {"emps", "name", c20Names}, {"emps", "role", c20Roles}, {"offs", "city", c20Cities},
 		{"emps.tags", "tag", c20Tags}, {"emps.tags", "tag", c20Tags}}
 	var cands []lf
